@@ -39,12 +39,12 @@ def relation(s, w):
             probs.append(("accepted-events-differ", {}, f"{oracle.first_diff(w.events, s.events)}"))
         return probs
     if firstw is None:
-        if wesc == s.kind and w.details == s.details and w.events == s.events:
-            return probs  # warn mode raised the very same error (only the two documented escapes can do that; C08 judges which)
+        # (the two escapes warn mode is allowed are always preceded by the warning for the offending value, so a
+        # rejection by strict mode without any warning in warn mode is never right)
         if wesc is None:
             probs.append(("strict-rejects-warn-silent", {"strict": s.kind}, f"strict raises {s.kind} {s.details}; warn mode emits no warning and ends normally"))
         else:
-            probs.append(("strict-rejects-warn-raises-other", {"strict": s.kind, "warn": wesc}, f"strict raises {s.kind} {s.details}; warn mode raises {wesc} {w.details} before any warning"))
+            probs.append(("strict-rejects-warn-raises-without-warning", {"strict": s.kind, "warn": wesc}, f"strict raises {s.kind} {s.details}; warn mode raises {wesc} {w.details} before any warning"))
         return probs
     wk, wd = w.events[firstw][1], dict(w.events[firstw][2])
     before = w.events[:firstw]
